@@ -4,7 +4,13 @@
 #include <stdlib.h>
 #include <string.h>
 #include <stdarg.h>
+#ifdef VERIF_BLACKBOX
+/* public interface only (the log's representation has changed): no `sethead`; `reset` can only clear */
+#include <librfn/mlog.h>
+#include <librfn/string.h>
+#else
 #include "mlog.c"
+#endif
 
 /* 16 format strings: plain, longer than any fixed line buffer, star width / precision, literal percent signs,
  * string arguments, no conversions at all.  The model/driver and the Python oracle render the same table. */
@@ -42,8 +48,13 @@ int main(void)
 		else if (!strcmp(op, "log")) { args_for(a & 15, av); mlog(fmts[a & 15], av[0], av[1], av[2]); puts("ok"); }
 		else if (!strcmp(op, "nice")) { args_for(a & 15, av); mlog_nice(fmts[a & 15], av[0], av[1], av[2]); puts("ok"); }
 		else if (!strcmp(op, "clear")) { mlog_clear(); puts("ok"); }
+#ifdef VERIF_BLACKBOX
+		else if (!strcmp(op, "reset")) { mlog_clear(); puts("ok"); }
+		else if (!strcmp(op, "sethead")) { puts("unsupported"); }
+#else
 		else if (!strcmp(op, "reset")) { memset(&log, 0, sizeof log); puts("ok"); }
 		else if (!strcmp(op, "sethead")) { log.head = (unsigned int)a; puts("ok"); }
+#endif
 		else if (!strcmp(op, "get")) { char *s = mlog_get_line((int)a); puts(s ? s : "NULL"); free(s); }
 		else if (!strcmp(op, "dump")) {
 			char *buf = NULL; size_t sz = 0; FILE *f = open_memstream(&buf, &sz);
